@@ -24,7 +24,8 @@ CONSTANTS Starts(_),      \* store -> set of <<env id, text>> offered to OpStart
           EnvGet(_, _),   \* (env id, name) -> value of the environment variable; <<>> when unset or empty
           Limit,          \* longest result (CONFIG_BUFF - 1)
           NameMax,        \* longest $-name (127)
-          AppName, AppVersion,
+          AppName(_), AppVersion(_),   \* env id -> program name / version (libast_set_program_name/version: part of the
+                                       \* environment of the built-ins, like the variables)
           Obs(_, _, _, _) \* observation hook (op, args, ret, post)
 
 VARIABLES store, store0, phase, envid, stack
@@ -88,6 +89,7 @@ Words(t) == LET n == Len(t)
                 ends   == {i \in 1 .. n : t[i] \notin Blank /\ (i = n \/ t[i + 1] \in Blank)}
                 Kth(S, k) == CHOOSE x \in S : Cardinality({y \in S : y < x}) = k - 1
             IN [k \in 1 .. Cardinality(starts) |-> SubSeq(t, Kth(starts, k), Kth(ends, k))]
+AppBuf == 255                                                          \* C: %appname is built in a 256-byte buffer
 Cut(s) == IF Len(s) > Limit THEN SubSeq(s, 1, Limit) ELSE s           \* S: never longer than the limit
 
 (* the variable store: ideal finite map kept as an ascending association list *)
@@ -218,8 +220,10 @@ OpPercentInSingle == /\ Scanning /\ Cur = PCT /\ Top.sq /\ GiveUp("percent-insid
 \* result of a built-in on its expanded argument a: [ok, res (set of acceptable results), st (store afterwards)]
 Builtin(fn, a, st) ==
     LET ws == Words(a) n == Len(ws) IN
-    CASE fn = "version" -> [ok |-> TRUE, res |-> {AppVersion}, st |-> st]
-      [] fn = "appname" -> [ok |-> TRUE, res |-> {AppName \o <<DASH>> \o AppVersion}, st |-> st]
+    CASE fn = "version" -> [ok |-> TRUE, res |-> {AppVersion(envid)}, st |-> st]
+      [] fn = "appname" -> [ok |-> TRUE, st |-> st,                                  \* C: name-version, at most AppBuf characters
+                            res |-> {LET full == AppName(envid) \o <<DASH>> \o AppVersion(envid)
+                                     IN IF Len(full) > AppBuf THEN SubSeq(full, 1, AppBuf) ELSE full}]
       [] fn = "get"     -> [ok |-> Splittable(a), st |-> st,                         \* S: the stored value; C: 2nd word = default;
                             res |-> {IF n = 1 \/ n = 2                               \* C: wrong word count -> refused, nothing
                                      THEN (IF Has(st, ws[1]) THEN Lookup(st, ws[1]) ELSE IF n = 2 THEN ws[2] ELSE <<>>)
